@@ -69,6 +69,20 @@ def gen_case(seed):
         forbidden = delim + "\n\r"
     top_syms = [s for s in SYM_BASE + SYM_PUNCT + ([""] if True else []) + (SYM_WS if fmt in ("rfc4180", "json-list", "json-object", "sqlite") else [])
                 if not any(ch in s for ch in forbidden) and (delim is None or delim not in s or fmt == "rfc4180")]
+    # composed symbols: the fixed pool only has each special character in a few neighbourhoods, while quoting and escaping code
+    # looks at neighbours (a quote at the end of a line, a doubled quote before a delimiter, a backslash before a quote ...)
+    atoms = ["a", "b", "x", " ", '"', '"', "\n", "\r", "\t", ",", "\\", "|", ";", "[", "]", '""', "'", ":"]
+    composed = []
+    for _ in range(12):
+        c = "".join(rng.choice(atoms) for _ in range(rng.randint(1, 5)))
+        if not any(ch in c for ch in forbidden) and (delim is None or delim not in c or fmt == "rfc4180"):
+            if fmt in ("rfc4180", "json-list", "json-object", "sqlite") or not any(ch in c for ch in "\n\r\t"):
+                # plain text with a delimiter that contains ',': the reader counts brackets to tell a record's commas from
+                # delimiters, so a symbol with a stray bracket is outside what that format can represent
+                if fmt in ("tab", "delim") and delim is not None and "," in delim and ("[" in c or "]" in c):
+                    continue
+                composed.append(c)
+    top_syms = top_syms + composed
     # symbols nested in records / ADTs: the text formats delimit them with ',' ']' ')' - keep them plain there
     inner_syms = [s for s in SYM_BASE if not any(ch in s for ch in forbidden) and (delim is None or delim not in s) and s == s.strip() and s != "nil"]
     if fmt.startswith("json") or fmt == "sqlite":
